@@ -26,6 +26,8 @@ def families(rng, n, cplx):
     out["ofdm"] = torch.fft.ifft(torch.complex(torch.sign(torch.randn(n)), torch.sign(torch.randn(n)))) * math.sqrt(n) if cplx else \
         torch.fft.ifft(torch.complex(torch.sign(torch.randn(n)), torch.sign(torch.randn(n)))).real * math.sqrt(n)
     out["heavy"] = mk(lambda: torch.randn(n) ** 3)
+    out["squared"] = mk(lambda: (lambda g: g * g.abs())(torch.randn(n)))      # heavier tails than Gaussian, yet non-sparse
+    out["ramp4"] = mk(lambda: ((torch.arange(1, n + 1, dtype=torch.float32) / n) ** 4) * torch.tensor([(-1.0) ** i for i in range(n)]))   # deterministic, 44% within 20 dB of the peak
     out["constant"] = mk(lambda: torch.ones(n) * 0.7)
     out["alternating"] = mk(lambda: torch.tensor([(-1.0) ** i for i in range(n)]))
     return out
@@ -156,8 +158,10 @@ def run(run):
             for d in shape:
                 n *= d
             fams = families(rng, n, cplx)
-            for fname in ("gaussian", "uniform", "ofdm", "heavy", "alternating"):
+            for fname in ("gaussian", "uniform", "ofdm", "heavy", "squared", "ramp4", "alternating"):
                 x = (fams[fname] * rng.choice(scales)).reshape(shape)
+                if fname == "ramp4" and len(shape) > 1 and shape[0] > 1:      # one full ramp per batch item
+                    x = (torch.stack([families(rng, n // shape[0], cplx)["ramp4"] for _ in range(shape[0])]) * rng.choice(scales)).reshape(shape)
                 for lim in (0.05, 1.0, 30.0):
                     cfg = {"constraint": "PeakAmplitudeConstraint", "complex": cplx, "ndim": len(shape), "family": fname, "limit": lim}
                     try:
@@ -166,14 +170,15 @@ def run(run):
                     except Exception as ex:
                         add({"ev": "Peak", "raised": True, "error": repr(ex)[:100]}, "PeakAmplitudeConstraint", cfg)
                     run.case(("peak", cplx, shape, fname, lim), nontrivial=True)
-                for lim in ((2.0, 4.0) if quick else (1.5, 2.0, 4.0, 8.0)):
+                for lim in (((1.2, 2.0, 4.0) if fname == "ramp4" else (2.0, 4.0)) if quick else (1.2, 1.5, 2.0, 4.0, 8.0)):
                     cfg = {"constraint": "PAPRConstraint", "complex": cplx, "ndim": len(shape), "family": fname, "limit": lim}
                     try:
                         y = K.PAPRConstraint(max_papr=lim)(x)
-                        for b, yi in enumerate(items_of(y)):
+                        for b, (xi, yi) in enumerate(zip(items_of(x), items_of(y))):
                             p2 = (yi.abs() ** 2).double()
                             papr = float(p2.max() / p2.mean())
-                            frac = float((p2 >= p2.max() / 100.0).double().mean())
+                            q2 = (xi.abs() ** 2).double()          # the quantifier is over inputs: sparsity is a property of the input item
+                            frac = float((q2 >= q2.max() / 100.0).double().mean())
                             add({"ev": "Papr", "raised": False, "papr_ppm": int(round(min(papr / lim, 2000.0) * 1e6)), "frac20_ppm": int(round(frac * 1e6)), "shape_ok": tuple(y.shape) == tuple(x.shape)},
                                 "PAPRConstraint", dict(cfg, item=b))
                     except Exception as ex:
@@ -196,8 +201,21 @@ def run(run):
             ref = x
             for p in parts:
                 ref = p(ref)
+            yc = K.utils.apply_constraint_chain(parts, x)
             add({"ev": "Composite", "raised": False, "order": seq_order, "declared": list(range(1, len(parts) + 1)),
-                 "diff_ppm": int(round(min(float((y - ref).abs().max()) / max(float(ref.abs().max()), 1e-30), 1.0) * 1e6))}, "CompositeConstraint", cfg)
+                 "diff_ppm": int(round(min(float((y - ref).abs().max()) / max(float(ref.abs().max()), 1e-30), 1.0) * 1e6)),
+                 "chain_ppm": int(round(min(float((yc - ref).abs().max()) / max(float(ref.abs().max()), 1e-30), 1.0) * 1e6))}, "CompositeConstraint", cfg)
+            # the observation point named by the property: measure_signal_properties(constraint(x))
+            try:
+                mp = K.utils.measure_signal_properties(y)
+                p2 = (y.abs().double() ** 2)
+                rm, rp = float(p2.mean()), float(p2.max())
+                rat = lambda a, b: int(round(min(max(a / b, 0.0), 2000.0) * 1e6)) if b > 0 else (1000000 if a == b else 0)
+                add({"ev": "Measure", "raised": False, "mean_ppm": rat(mp["mean_power"], rm), "peak_ppm": rat(mp["peak_power"], rp), "amp_ppm": rat(mp["peak_amplitude"], rp ** 0.5),
+                     "papr_ppm": rat(mp["papr"], rp / rm) if rm > 0 else 1000000, "db_centi": int(round(mp["papr_db"] * 100)) if rm > 0 else 0,
+                     "db_centi_ref": int(round(1000 * math.log10(rp / rm))) if rm > 0 else 0}, "measure_signal_properties", cfg)
+            except Exception as ex:
+                add({"ev": "Measure", "raised": True, "error": repr(ex)[:100]}, "measure_signal_properties", cfg)
         except Exception as ex:
             add({"ev": "Composite", "raised": True, "error": repr(ex)[:100]}, "CompositeConstraint", cfg)
         for h in hooks:
@@ -211,10 +229,11 @@ def run(run):
                 cfg = {"constraint": "create_ofdm_constraints", "complex": cplx, "peak": peak is not None, "max_papr": papr}
                 try:
                     y = create_ofdm_constraints(total_power=1.0, max_papr=papr, is_complex=cplx, peak_amplitude=peak)(x)
-                    for b, yi in enumerate(items_of(y)):
+                    for b, (xi, yi) in enumerate(zip(items_of(x), items_of(y))):
                         p2 = (yi.abs() ** 2).double()
+                        q2 = (xi.abs() ** 2).double()
                         add({"ev": "Factory", "raised": False, "power_ppm": int(round(float(p2.sum()) * 1e6)), "peak_ppm": -1 if peak is None else int(round(float(yi.abs().max()) / peak * 1e6)),
-                             "papr_ppm": int(round(float(p2.max() / p2.mean()) / papr * 1e6)), "frac20_ppm": int(round(float((p2 >= p2.max() / 100).double().mean()) * 1e6)),
+                             "papr_ppm": int(round(float(p2.max() / p2.mean()) / papr * 1e6)), "frac20_ppm": int(round(float((q2 >= q2.max() / 100).double().mean()) * 1e6)),
                              "ant_min_ppm": -1, "ant_max_ppm": -1}, "create_ofdm_constraints", dict(cfg, item=b))
                 except Exception as ex:
                     add({"ev": "Factory", "raised": True, "error": repr(ex)[:100]}, "create_ofdm_constraints", cfg)
